@@ -588,7 +588,7 @@ func runC20(c *Ctx) {
 		c.Bad("internal shutdown function", "-", "no Collector method shuts the config provider down")
 	} else {
 		cp := callsNamed(shut, func(f *types.Func) bool { return isMethod(f, pkgOtelcol, "ConfigProvider", "Shutdown") })
-		sv := callsNamed(shut, func(f *types.Func) bool { return isMethod(f, pkgService, "Service", "Shutdown") })
+		sv := callsNamed(shut, func(f *types.Func) bool { return isServiceShutdownFn(p, f) })
 		sets := callsTo(shut, funcObj(setter))
 		okShape := len(cp) == 1 && len(sv) == 1 && len(sets) == 2
 		if okShape {
@@ -634,7 +634,7 @@ func runC20(c *Ctx) {
 	if setup == nil || reload == nil {
 		c.Anchor("set-up (calls service.New) and reload (calls set-up) methods")
 	} else {
-		sd := callsNamed(reload, func(f *types.Func) bool { return isMethod(f, pkgService, "Service", "Shutdown") })
+		sd := callsNamed(reload, func(f *types.Func) bool { return isServiceShutdownFn(p, f) })
 		su := callsTo(reload, funcObj(setup))
 		if len(sd) != 1 || len(su) != 1 {
 			c.Bad("reload shuts the old service down and sets up the new one", p.Pos(reload.Pos()), fmt.Sprintf("found %d Shutdown and %d set-up calls", len(sd), len(su)))
@@ -655,7 +655,7 @@ func runC20(c *Ctx) {
 	c.Rule("R4", "GATE", "a failed service.Start shuts the just-created service down before returning the error", 1)
 	if setup != nil {
 		st := callsNamed(setup, func(f *types.Func) bool { return isMethod(f, pkgService, "Service", "Start") })
-		sd := callsNamed(setup, func(f *types.Func) bool { return isMethod(f, pkgService, "Service", "Shutdown") })
+		sd := callsNamed(setup, func(f *types.Func) bool { return isServiceShutdownFn(p, f) })
 		ok := len(st) == 1 && len(sd) >= 1 && errGuardOn(sd[0].Block(), st[0], false)
 		pos := p.Pos(setup.Pos())
 		if len(st) == 1 {
@@ -777,6 +777,7 @@ func runC20(c *Ctx) {
 	shareRule(c, "C11", runC11, []string{"C11.R1"}, "R9", "TAB", "the status state machine lets FatalError be reported from every non-final state (same table rule as C11.R1): an asynchronous fatal component error always reaches the collector and stops Run", 20)
 	runC20Round3(c)
 	runC20Round4(c)
+	runC20FatalDrain(c)
 }
 
 func constantInt64(c *types.Const) (int64, bool) {
